@@ -109,7 +109,7 @@ func (r *vfC16Run) dump() string {
 		fmt.Fprintf(&sb, "live connection %s log: %s\n", r.live.Label, vfMqFmtEvents(r.live.Events()))
 	}
 	for _, o := range r.olds {
-		fmt.Fprintf(&sb, "superseded %s (teardown pending) session topics %v\n", o.c.Label, o.topics)
+		fmt.Fprintf(&sb, "superseded %s (teardown pending; socket closed by broker: %v) session topics %v log: %s\n", o.c.Label, o.c.EOF(), o.topics, vfMqFmtEvents(o.c.Events()))
 	}
 	if t, ok := r.rig.store.sessionTopics(vfC16CID); ok {
 		fmt.Fprintf(&sb, "stored record topics: %v\n", t)
@@ -130,6 +130,40 @@ func (r *vfC16Run) violation(key, format string, args ...interface{}) {
 	if r.vf.Violation(r.rt, key, format+"\n%s", append(args, r.dump())...) {
 		r.abandon = true
 	}
+}
+
+// sweep notices superseded connections whose teardown has already finished. The broker's read
+// loop normally sits in ReadPacket when its connection is superseded and then ends only when the
+// harness sends something; but when it is still between two packets at that moment it sees the
+// closed flag at once and tears down on its own. Both are schedules the statement quantifies over.
+func (r *vfC16Run) sweep() {
+	kept := r.olds[:0:0]
+	for _, o := range r.olds {
+		if o.c.EOF() {
+			r.tornDown = true
+			r.log("(%s ended on its own)", o.c.Label)
+			r.vf.Class("teardown-spontaneous-right-after-takeover")
+			if r.subAfterTake {
+				r.ntTeardown = true
+			}
+		} else {
+			kept = append(kept, o)
+		}
+	}
+	r.olds = kept
+}
+
+// tdNow: has a superseded connection finished its teardown since the live one connected? Called
+// when a symptom shows up; a teardown that is running right now closes its socket right after
+// the cleanup, so a short wait decides. (Only the choice of the violation key depends on it.)
+func (r *vfC16Run) tdNow() bool {
+	r.sweep()
+	deadline := time.Now().Add(5 * time.Second)
+	for !r.tornDown && len(r.olds) > 0 && time.Now().Before(deadline) {
+		time.Sleep(time.Millisecond)
+		r.sweep()
+	}
+	return r.tornDown
 }
 
 func vfC16Copy(m map[string]byte) map[string]byte {
@@ -211,7 +245,12 @@ func (r *vfC16Run) connect(clean bool, takeover bool) {
 	// PINGREQ is handled by the read loop, which starts after handleConn re-subscribed the session
 	if _, err := c.Ping(); err != nil {
 		if c.EOF() {
-			r.violation("connection-closed-by-broker", "%s was closed by the broker right after CONNACK", label)
+			key := "connection-closed-by-broker"
+			if r.tdNow() {
+				key = vfC16KeyTdClosed
+			}
+			r.violation(key, "%s was closed by the broker right after CONNACK", label)
+			r.abandon = true
 			return
 		}
 		r.inconclusive("ping after connect", err)
@@ -348,7 +387,7 @@ func (r *vfC16Run) stepPipelined() {
 func (r *vfC16Run) liveFailed(what string, err error) {
 	if r.live.EOF() {
 		key := "connection-closed-by-broker"
-		if r.tornDown {
+		if r.tdNow() {
 			key = vfC16KeyTdClosed
 		}
 		r.violation(key, "%s: the broker closed the live connection (%v)", what, err)
@@ -436,13 +475,14 @@ func (r *vfC16Run) verify() {
 		r.inconclusive("quiesce", err)
 	}
 	c := r.live
-	td := r.tornDown
+	r.sweep()
 	// --- the live connection is still there
 	if _, err := c.Ping(); err != nil {
 		if !c.EOF() {
 			r.inconclusive("ping", err)
 		}
 		key := "connection-closed-by-broker"
+		td := r.tdNow()
 		if td {
 			key = vfC16KeyTdClosed
 		}
@@ -459,7 +499,7 @@ func (r *vfC16Run) verify() {
 	bc := r.rig.registered(vfC16CID)
 	if bc == nil || bc.conn.RemoteAddr().String() != c.LocalAddr() {
 		key := "live-connection-not-registered"
-		if td {
+		if r.tdNow() {
 			key = vfC16KeyTdUnreg
 		}
 		r.violation(key, "Broker.clients[%s] is not the live connection %s (registered: %v)", vfC16CID, c.Label, bc != nil)
@@ -468,7 +508,7 @@ func (r *vfC16Run) verify() {
 		v, ok := r.rig.broker.sessMgr.sessionMap.Load(vfC16CID)
 		if !ok || v.(*Session) != bc.session {
 			key := "live-session-not-in-session-map"
-			if td {
+			if r.tdNow() {
 				key = vfC16KeyTdSess
 			}
 			r.violation(key, "the session manager has no entry for the live connection's session (entry present: %v)", ok)
@@ -477,7 +517,7 @@ func (r *vfC16Run) verify() {
 	// --- stored record
 	if stored, ok := r.rig.store.sessionTopics(vfC16CID); !ok {
 		key := "session-record-missing"
-		if td {
+		if r.tdNow() {
 			key = vfC16KeyTdStore
 		}
 		r.violation(key, "no stored record for the live session")
@@ -497,7 +537,7 @@ func (r *vfC16Run) verify() {
 	sort.Strings(modelFilters)
 	for _, f := range modelFilters {
 		if !r.rig.routed(vfC16CID, vfC16Instance(f)) {
-			r.violation(r.lostKey(f, td), "filter %s of the live session is not routed to %s any more", f, vfC16CID)
+			r.violation(r.lostKey(f), "filter %s of the live session is not routed to %s any more", f, vfC16CID)
 			break
 		}
 	}
@@ -557,7 +597,11 @@ func (r *vfC16Run) verify() {
 		if !c.EOF() {
 			r.inconclusive("ping", err)
 		}
-		r.violation("connection-closed-by-broker", "the broker closed the live connection %s while probes were delivered", c.Label)
+		key := "connection-closed-by-broker"
+		if r.tdNow() {
+			key = vfC16KeyTdClosed
+		}
+		r.violation(key, "the broker closed the live connection %s while probes were delivered", c.Label)
 		r.abandon = true
 		return
 	}
@@ -569,7 +613,7 @@ func (r *vfC16Run) verify() {
 		case !p.expect && !got:
 			r.vf.Class("probe:not-subscribed-not-delivered")
 		case p.expect && !got:
-			r.violation(r.lostKey(p.by, td), "probe %s@%d (%s) matches live filter %s but was not delivered", p.topic, p.q, p.payload, p.by)
+			r.violation(r.lostKey(p.by), "probe %s@%d (%s) matches live filter %s but was not delivered", p.topic, p.q, p.payload, p.by)
 			return
 		default:
 			key := "delivered-without-subscription"
@@ -586,9 +630,9 @@ func (r *vfC16Run) verify() {
 	}
 }
 
-func (r *vfC16Run) lostKey(filter string, td bool) string {
+func (r *vfC16Run) lostKey(filter string) string {
 	switch {
-	case td:
+	case r.tdNow():
 		return vfC16KeyTdUnsub
 	case r.restored[filter]:
 		return "reconnect-lost-subscriptions"
@@ -647,6 +691,7 @@ func TestVerifC16Sessions(t *testing.T) {
 		r := &vfC16Run{rt: rt, vf: vf, rig: rig, restored: map[string]bool{}}
 		nSteps := rapid.IntRange(3, 12).Draw(rt, "nSteps")
 		for r.steps = 0; r.steps < nSteps && !r.abandon; r.steps++ {
+			r.sweep()
 			if r.live == nil {
 				r.connect(rapid.IntRange(0, 9).Draw(rt, "clean") < 4, false)
 			} else {
@@ -681,7 +726,7 @@ func TestVerifC16Sessions(t *testing.T) {
 			}
 		}
 		// every superseded connection ends at some point: let the remaining ones end now
-		for len(r.olds) > 0 && !r.abandon {
+		for r.sweep(); len(r.olds) > 0 && !r.abandon; r.sweep() {
 			if r.live == nil {
 				// nothing to protect any more; just end them
 				for _, o := range r.olds {
